@@ -22,7 +22,29 @@ from mc.spec import (And, BoolExpr, Cmp, Cond, Container, Doc, FloatEnc, IntEnc,
 PROP = "C06"
 LEVEL = "exploration"
 
-OPS = ["==", "eq", "!=", "neq", "&lt;", "lt", "<", "&gt;", "gt", ">", "&lt;=", "leq", "<=", "&gt;=", "geq", ">="]
+KNOWN_OPS = ["==", "eq", "!=", "neq", "&lt;", "lt", "<", "&gt;", "gt", ">", "&lt;=", "leq", "<=", "&gt;=", "geq", ">="]
+
+
+def _accepted_spellings():
+    """The operator spellings the library accepts NOW (its own table), so that a spelling added later is judged too; each is read for what it
+    says: entity and word forms are reduced to the relation they name."""
+    try:
+        from space_packet_parser.xtce.comparisons import MatchCriteria
+        keys = [k for k in MatchCriteria._valid_operators if isinstance(k, str)]
+    except Exception:  # noqa: BLE001
+        keys = []
+    return KNOWN_OPS + sorted(k for k in keys if k not in KNOWN_OPS)
+
+
+def relation_named(op):
+    """'&ge;' / 'geq' / '>=' / '&gt;=' -> '>='; None when the spelling is not understood."""
+    t = op.strip().replace("&lt;", "<").replace("&gt;", ">").replace("&amp;", "&")
+    t = {"&le;": "<=", "&ge;": ">=", "&ne;": "!=", "&eq;": "==", "le": "<=", "ge": ">=", "ne": "!=", "leq": "<=", "geq": ">=", "neq": "!=", "eq": "==", "lt": "<", "gt": ">",
+         "=<": None, "=>": None}.get(t, t)
+    return t if t in ("==", "!=", "<", ">", "<=", ">=") else None
+
+
+OPS = _accepted_spellings()
 CANON_OPS = ["==", "!=", "<", ">", "<=", ">="]
 
 INT_VALS = [0, 1, -1, 7]
